@@ -681,7 +681,7 @@ fn history(cx: &mut Ctx, cell: &CellDef, case: &Case, force_coq: bool, allow_coq
     cx.sum.cell_status(name, cell.status);
     let mut t = match make(name, case.cfg) {
         Ok(t) => t,
-        Err(e) => { cx.sum.fail(name, None, cj, &format!("cannot construct: {}", e)); return; }
+        Err(e) => { report(&mut cx.sum, name, None, cj, &format!("cannot construct: {}", e)); return; }
     };
     // every key mentioned by the history (and each of its prefixes' extension by one byte is covered by the generators)
     let mut pool: Vec<Key> = ops.iter().filter(|(o, _)| *o != REBUILD).map(|(_, k)| k.clone()).collect();
@@ -693,7 +693,7 @@ fn history(cx: &mut Ctx, cell: &CellDef, case: &Case, force_coq: bool, allow_coq
     let mut n_inserts_ok: usize = 0;      // critical-bit stub predicate: len counts every accepted insert call
     let mut n_insert_calls_dawg: usize = 0;
     let mut failed = false;
-    macro_rules! fail { ($class:expr, $($arg:tt)*) => {{ let cl: Option<&str> = $class; cx.sum.fail(name, cl, cj.clone(), &format!($($arg)*)); if cl.is_none() { failed = true; cx.sum.dist(&format!("unlisted_failures/{}", name)); } }}; }
+    macro_rules! fail { ($class:expr, $($arg:tt)*) => {{ let cl: Option<&str> = $class; report(&mut cx.sum, name, cl, cj.clone(), &format!($($arg)*)); if cl.is_none() { failed = true; cx.sum.dist(&format!("unlisted_failures/{}", name)); } }}; }
 
     if let Some(b) = &case.big {
         let keys = big_keys(b);
@@ -987,19 +987,29 @@ fn history(cx: &mut Ctx, cell: &CellDef, case: &Case, force_coq: bool, allow_coq
     }
 }
 
+/// `Summary::fail` keeps at most `max_failures` records, and the records of the listed finding classes (three per class and cell)
+/// fill that room early in a run: a failure outside every class must never be dropped for lack of room (the verdict of `check`
+/// reads the records only), so room is made for it - for the first 60 of them.
+fn report(sum: &mut Summary, cell: &str, class: Option<&str>, case: Value, detail: &str) {
+    if class.is_none() && sum.failures.iter().filter(|f| f["class"].is_null()).count() < 60 {
+        sum.max_failures = sum.max_failures.max(sum.failures.len() + 1);
+    }
+    sum.fail(cell, class, case, detail);
+}
+
 fn trunc(v: &[Key]) -> Vec<Key> { v.iter().take(6).map(|k| k.iter().take(12).cloned().collect()).collect() }
 
 fn check_contains(cx: &mut Ctx, name: &str, kind: Kind, cj: &Value, step: usize, k: &[u8], got: bool, want: bool, failed: &mut bool) {
     if got != want {
         let class = if kind == Kind::CritBit && !got { Some("critbit_stub") } else { None };
-        cx.sum.fail(name, class, cj.clone(), &format!("step {}: contains({:?}) = {} but the key was {}", step, &k[..k.len().min(16)], got, if want { "inserted and not removed" } else { "never inserted or removed" }));
+        report(&mut cx.sum, name, class, cj.clone(), &format!("step {}: contains({:?}) = {} but the key was {}", step, &k[..k.len().min(16)], got, if want { "inserted and not removed" } else { "never inserted or removed" }));
         if class.is_none() { *failed = true; cx.sum.dist(&format!("unlisted_failures/{}", name)); }
     }
 }
 fn check_len(cx: &mut Ctx, name: &str, kind: Kind, cj: &Value, step: usize, got: usize, want: usize, n_ins: usize, _n_calls: usize, failed: &mut bool) {
     if got != want {
         let class = if kind == Kind::CritBit && got == n_ins { Some("critbit_stub") } else { None };
-        cx.sum.fail(name, class, cj.clone(), &format!("step {}: len = {} but the set has {} keys", step, got, want));
+        report(&mut cx.sum, name, class, cj.clone(), &format!("step {}: len = {} but the set has {} keys", step, got, want));
         if class.is_none() { *failed = true; cx.sum.dist(&format!("unlisted_failures/{}", name)); }
     }
 }
